@@ -69,7 +69,7 @@ def _pad(draw, val):
 
 INVALID = ["override_missing_key", "override_missing_section", "remove_missing_key", "add_existing", "add_existing_ws", "add_twice",
            "add_twice_ws", "remove_twice", "override_bad_placeholder", "add_bad_placeholder", "empty_section", "empty_key",
-           "label_without_equals", "label_without_colon"]
+           "label_without_equals", "label_without_colon", "add_to_section_differing_in_whitespace"]
 NOTES = ["Notes", [["author", "someone"], ["comment", "free text 1"], ["scale", "2.5"]]]
 
 
@@ -232,6 +232,12 @@ def _case(draw, targets=None, invalid=False, repeat=False, cross=False, route=No
                 bad = {"op": op, "section": n, "key0": k, "key": k, "value": v, "raw": k if op == "remove" else "%s=%s" % (k, v)}
                 if ":" in bad["raw"].split("=", 1)[0]:
                     bad["raw"] = "nr" if op == "remove" else "nr=5"
+        elif why == "add_to_section_differing_in_whitespace":
+            # an added item that names an existing section with a blank more ('Pair ', 'Table-Form:my tab'): typed into
+            # the file this is a second definition of that section
+            secname = draw(st.sampled_from(sorted(set(nn for nn, _, _ in keys))))
+            variant = draw(st.sampled_from([secname + " ", " " + secname, secname[:2] + " " + secname[2:]]))
+            bad = {"op": "add", "section": variant, "key0": "Xq-Zq", "key": "Xq-Zq", "value": "as.constant 7"}
         elif why == "add_existing":
             bad = {"op": "add", "section": n, "key0": k, "key": k, "value": v}
         else:
@@ -353,6 +359,8 @@ def hand_edit(secs, ops):
             return None, "argument %r is not of the form SECTION_NAME:KEY[=VALUE]" % o["raw"], stats
         if not o["section"].strip() or not o["key"].strip():
             return None, "item without section name or key: %r" % _label(o), stats
+        if find(o["section"]) is None and any(_norm(s_[0]) == _norm(o["section"]) and s_[0] != o["section"] for s_ in secs + [["Variables", []]]):
+            return None, "section [%s] differs only in whitespace from an existing one" % o["section"], stats
         s = find(o["section"])
         idx = None
         if s is not None:
